@@ -251,8 +251,17 @@ def check_c10(payload):
         cand = sorted(set(abs(l) for c in cnf.constraints() for l in c.get_nodes() if abs(l) <= nv)) or list(range(1, nv + 1))
         v = rng.choice(cand)
         lit = v if rng.random() < 0.3 else -v
-        cnf.add_constraint(TrueConstraint(lit))
-        out["src"] += "%% extra constraint on the CNF: variable %d is %s\n" % (v, "true" if lit > 0 else "false")
+        if opt["force"] % 2 == 0 and nv >= 2:
+            # a clause constraint over two literals (negative literals must keep their sign when the constraint is carried
+            # over to the circuit)
+            from problog.constraint import ClauseConstraint
+            v2 = rng.choice([x for x in range(1, nv + 1) if x != v])
+            lit2 = v2 if rng.random() < 0.5 else -v2
+            cnf.add_constraint(ClauseConstraint([lit, lit2]))
+            out["src"] += "%% extra constraint on the CNF: clause [%d, %d]\n" % (lit, lit2)
+        else:
+            cnf.add_constraint(TrueConstraint(lit))
+            out["src"] += "%% extra constraint on the CNF: variable %d is %s\n" % (v, "true" if lit > 0 else "false")
     if not opt:
         # the same CNF compiled with other compiler options first, in the same process (nothing of that compilation may
         # be handed out for the default one)
